@@ -556,3 +556,8 @@ PROPERTIES["C20"]["explanation"] += (" Source level (P20): " + PIPE_EXPL + "plus
     "call-site sites in the assertion tree and the REAL duplication of the callee's triggers. A callee in ten shapes, an argument that is nil / fresh / either behind an opaque flag, four uses (direct, nested call, checked, via a local): "
     "'Entry can dereference nil => reported' per program, and 'a true nonnil->nonnil contract keeps non-nil arguments clean'.")
 PROPERTIES["C20"]["bounds"]["quick"] += "; source level: all 120 programs of the P20 family"
+
+PROPERTIES["C07"]["runs"] += [
+    dict(pkg="accumulation", files=PIPE_FILES, entry="Harness_P07", name="_contracts", quick=dict(params=dict(PAIRS=0, CONTRACTS=1)), thorough=dict(params=dict(PAIRS=0, CONTRACTS=1)), args=dict(sample_every=7, max_samples=16)),
+]
+PROPERTIES["C07"]["bounds"]["quick"] += "; each template again with hand-written contracts in the package (on a variadic, a parameterless and a one-parameter function), contract collection over the real SSA and trigger duplication switched on"
